@@ -169,7 +169,7 @@ struct QExpression {
                     }
 
                     case ExpressionType::IntegerNumber: {
-                        Value.Number.Integer += right.Value.Number.Integer;
+                        Value.Number.Natural += right.Value.Number.Natural; // same bits as the signed sum, no overflow trap
                         Type = ExpressionType::IntegerNumber;
                         break;
                     }
@@ -191,7 +191,7 @@ struct QExpression {
                 switch (right.Type) {
                     case ExpressionType::NaturalNumber:
                     case ExpressionType::IntegerNumber: {
-                        Value.Number.Integer += right.Value.Number.Integer;
+                        Value.Number.Natural += right.Value.Number.Natural; // same bits as the signed sum, no overflow trap
                         break;
                     }
 
@@ -249,7 +249,7 @@ struct QExpression {
                     }
 
                     case ExpressionType::IntegerNumber: {
-                        Value.Number.Integer -= right.Value.Number.Integer;
+                        Value.Number.Natural -= right.Value.Number.Natural; // same bits as the signed difference
                         Type = ExpressionType::IntegerNumber;
 
                         break;
@@ -272,7 +272,7 @@ struct QExpression {
                 switch (right.Type) {
                     case ExpressionType::NaturalNumber:
                     case ExpressionType::IntegerNumber: {
-                        Value.Number.Integer -= right.Value.Number.Integer;
+                        Value.Number.Natural -= right.Value.Number.Natural; // same bits as the signed difference
                         break;
                     }
 
@@ -325,7 +325,7 @@ struct QExpression {
                     }
 
                     case ExpressionType::IntegerNumber: {
-                        Value.Number.Integer *= right.Value.Number.Integer;
+                        Value.Number.Natural *= right.Value.Number.Natural; // same low 64 bits as the signed product
                         Type = ExpressionType::IntegerNumber;
                         break;
                     }
@@ -348,7 +348,7 @@ struct QExpression {
                     Value.Number.Real = (double(Value.Number.Integer) * right.Value.Number.Real);
                     Type              = ExpressionType::RealNumber;
                 } else {
-                    Value.Number.Integer *= right.Value.Number.Integer;
+                    Value.Number.Natural *= right.Value.Number.Natural; // same low 64 bits as the signed product
                 }
 
                 break;
@@ -410,7 +410,7 @@ struct QExpression {
                 left_negative = (Value.Number.Integer < 0);
 
                 if (left_negative) {
-                    Value.Number.Integer = -Value.Number.Integer;
+                    Value.Number.Natural = (SizeT64{0} - Value.Number.Natural);
                 }
 
                 break;
@@ -449,7 +449,7 @@ struct QExpression {
                 right_negative = (right.Value.Number.Integer < 0);
 
                 if (right_negative) {
-                    num_right = QNumber64{-right.Value.Number.Integer}.Natural;
+                    num_right = (SizeT64{0} - right.Value.Number.Natural);
                 } else {
                     num_right = right.Value.Number.Natural;
                 }
@@ -495,7 +495,7 @@ struct QExpression {
                     }
 
                 } else if (left_negative && right_odd) {
-                    Value.Number.Integer = -Value.Number.Integer;
+                    Value.Number.Natural = (SizeT64{0} - Value.Number.Natural);
                     Type                 = ExpressionType::IntegerNumber;
                 } else {
                     Type = ExpressionType::NaturalNumber;
